@@ -104,6 +104,8 @@ def _run(sim: Sim, fs: SimFS, save_mod, fanout: bool, e2e: bool = False) -> None
     used: list[str] = []
     fs.log_to_sim = False
     k = sim.choose(6, "earlier-runs")
+    if sim.flip(1, 8, "long-history"):
+        k = 6 + sim.choose(10, "earlier-runs-many")
     with sim.guard("C20.fault_free_save_raised"):
         for _ in range(k):
             name = sm.draw_name(sim, used, want_new=True)
